@@ -294,11 +294,16 @@ class ScopeGen(object):
         return '(%s, %s)' % (self.ref(), self.ref())
 
 
-def big_scope(rng, n, nested=True):
+def big_scope(rng, n, nested=True, short=()):
     """a function with n declared names used with different frequencies, closures referring to some of them, free
-    names that look like generated ones (`a`, `b`, `do`-neighbours) so that skipping and multi-letter names occur"""
+    names that look like generated ones (`a`, `b`, `do`-neighbours) so that skipping and multi-letter names occur;
+    `short`: additional declared names that ARE spelled like generated ones (one or two characters), referenced once
+    each, so that they rank last and meet replacements longer than themselves"""
     names = ['v%d' % i for i in range(n)]
     out = ['function big(p0, p1) {']
+    if short:
+        out.append('var ' + ', '.join(short) + ';')
+        out.append(' + '.join(short) + ';')
     for i in range(0, n, 40):
         out.append('var ' + ', '.join(names[i:i + 40]) + ';')
     uses = []
@@ -888,6 +893,13 @@ def run(ctx):
             sel = sel[:2]
         ctx.bump('big-scope:%d' % n)
         chk.process(text, sel, 'big-scope', do_agree=(n <= 230))
+    # declared names spelled like the generator's own output (one / two characters), ranked last in scopes that need
+    # two-letter names: a replacement must never collide with a name that was kept or handed out before
+    for n, short in ((58, ['t']), (70, ['a', 'k', 'Z', '_', '$', 'ba', 'aa']), (40, ['b', 'c', 'd'])):
+        text = big_scope(brng, n, short=short)
+        ctx.bump('big-scope-short-names:%d' % n)
+        chk.process(text, [PCfg('minify', False, False), PCfg('minify', True, True, True), PCfg('indent', True, False)],
+                    'big-scope-short', do_agree=False)
     # one printer OBJECT used for several programs in a row (a small one first, then scopes that need more than 226 names:
     # the reserved-word skip list and the name generator must be as good on the n-th call as on the first)
     for cfg in (PCfg('minify', False, False), PCfg('minify', True, True, True), PCfg('indentK', False, False)):
